@@ -147,10 +147,18 @@ func rprop(f func(ConstVector) (MagicScalar, error), x0 ConstVector, step_init f
       if err != nil || gradient_is_nan(s) ||
         (constraints.Value != nil && !constraints.Value(x2)) {
         // if the updated is invalid reduce step size
+        stalled := true
         for i := 0; i < x1.Dim(); i++ {
           if gradient_new[i] != 0.0 {
+            if t := step[i]*eta[1]; t < step[i] && x1.Float64At(i) + t != x1.Float64At(i) {
+              stalled = false
+            }
             step[i] *= eta[1]
           }
+        }
+        if stalled {
+          // the steps cannot be reduced any further or are too small to change x
+          return x1, fmt.Errorf("no valid point found")
         }
       } else {
         // new position is valid, exit loop
